@@ -470,6 +470,15 @@ func responseI(r *core.Rand, ops *[]string, id string, g *genCfg, fast bool, spa
 	if fast {
 		f = strconv.Itoa(r.Range(1, 16))
 	}
+	if r.Chance(1, 3) {
+		// the bucket shared by all connections of the shape is limited too, independently of the
+		// connection's own: smaller, equal or larger, and partly used by whoever wrote before
+		if fast {
+			f += "/" + strconv.Itoa(r.Range(1, 24))
+		} else {
+			f += "/" + strconv.Itoa(r.Range(8, 400))
+		}
+	}
 	*ops = append(*ops, fmt.Sprintf("ctx %s %s %d %d %s", id, u, rs, hl, f))
 	data := r.Bytes(hl + bodyLen)
 	if middle != nil && len(data) == 0 {
@@ -605,7 +614,11 @@ func (P) Gen(r *core.Rand, tier string, emit func([]string)) {
 		}
 		hl := r.Intn(30)
 		data := r.Bytes(hl + r.Range(20, 150))
-		emit([]string{g.tok, fmt.Sprintf("par %d %s %d %d %d %s", r.Range(2, 12), u, r.Intn(40), hl, r.Range(1, 16), core.Hex(data)), "leak"})
+		f := strconv.Itoa(r.Range(1, 16))
+		if r.Bool() {
+			f += "/" + strconv.Itoa(r.Range(1, 24)) // all of them share one small bucket as well
+		}
+		emit([]string{g.tok, fmt.Sprintf("par %d %s %d %d %s %s", r.Range(2, 12), u, r.Intn(40), hl, f, core.Hex(data)), "leak"})
 	}
 	// D. wall-clock throttle measurement (seconds each)
 	for i := 0; i < nSlow; i++ {
@@ -711,7 +724,11 @@ func (P) Gen(r *core.Rand, tier string, emit func([]string)) {
 		span := []int{300, 3000, 12000}[r.Intn(3)]
 		g := genConfig(r, true, false, span)
 		cur := &g
-		ops := []string{g.tok, "dial c0"}
+		shared := "" // every dialled connection of the case shares small real global buckets
+		if r.Chance(1, 3) {
+			shared = " " + strconv.Itoa(r.Range(16, 600))
+		}
+		ops := []string{g.tok, "dial c0" + shared}
 		live := []string{"c0"}
 		nreq := r.Range(2, 4)
 		for k := 0; k < nreq; k++ {
@@ -726,13 +743,13 @@ func (P) Gen(r *core.Rand, tier string, emit func([]string)) {
 				default:
 					g2 := genConfig(r, true, false, span)
 					id := fmt.Sprintf("c%d", len(live))
-					ops = append(ops, "cfgstart "+strings.TrimPrefix(g2.tok, "config "), "dial "+id, "cfgend")
+					ops = append(ops, "cfgstart "+strings.TrimPrefix(g2.tok, "config "), "dial "+id+shared, "cfgend")
 					live = append(live, id)
 					cur = &g2
 				}
 				if r.Chance(1, 2) {
 					id := fmt.Sprintf("c%d", len(live))
-					ops = append(ops, "dial "+id)
+					ops = append(ops, "dial "+id+shared)
 					live = append(live, id)
 				}
 			}
